@@ -122,7 +122,11 @@ def restricted_lists(mask_seed):
         else:
             keep = frozenset(x for x in v if (zlib.crc32(repr((x, mask_seed, k)).encode()) % 4) >= mode - 1 or False)
             if k == "attr_val_is_uri":
-                keep = v      # shrinking the set of URI-valued attributes is a configuration that *widens* what passes; keep the default
+                # shrinking the set of URI-valued attributes is a configuration that *widens* what passes; keep the default -
+                # but a caller may ADD attributes it wants scheme-checked (usemap, icon, data ... are allowed but not URI-valued by default)
+                extra = [a for a in ((None, n) for n in ("usemap", "icon", "data", "from", "to", "profile", "codebase", "manifest", "formaction", "title"))
+                         if a in base["allowed_attributes"] and (zlib.crc32(repr((a, mask_seed)).encode()) % 2)]
+                keep = frozenset(v) | frozenset(extra)
             out[k] = keep
     return out
 
